@@ -253,13 +253,17 @@ def involved(w, op):
     return acc
 
 
-def run_shared(job):
+def run_shared(job, emit=None):
     out, effects = [], []
-    for h in job['histories']:
+    for hi, h in enumerate(job['histories']):
+        if emit:
+            emit(f'S {hi}')
         set_date_format(DEFAULT_FMT)
         w = World(h['pool'])
         res, eff = [], []
-        for op in h['ops']:
+        for i, op in enumerate(h['ops']):
+            if emit:
+                emit(f'O {hi} {i}')
             if job.get('snap'):
                 names = involved(w, op)
                 try:
@@ -282,34 +286,52 @@ def run_shared(job):
                 eff.append(ch)
         out.append(res)
         effects.append(eff)
+        if emit:
+            emit('H ' + json.dumps({'i': hi, 'r': res, 'e': eff}))
     set_date_format(DEFAULT_FMT)
     return {'results': out, 'effects': effects}
 
 
-def run_fresh(job):
+def run_fresh(job, emit=None):
     """every op on freshly built objects; histories and ops are evaluated in REVERSE order, so that whatever
     process-wide state the implementation keeps (module-level caches, the date table) has a different past here
     than in the shared run - a result that depends on it shows up as a difference"""
     out = [None] * len(job['histories'])
     for hi in range(len(job['histories']) - 1, -1, -1):
         h = job['histories'][hi]
+        if emit:
+            emit(f'S {hi}')
         res = [None] * len(h['ops'])
         for i in range(len(h['ops']) - 1, -1, -1):
             op = h['ops'][i]
+            if emit:
+                emit(f'O {hi} {i}')
             fm = op.get('fmt')
             set_date_format(DateFormatTypes[fm] if fm else DEFAULT_FMT)
             w = World(h['pool'])       # nothing is shared with any other op
             res[i] = w.call(op)
         out[hi] = res
+        if emit:
+            emit('H ' + json.dumps({'i': hi, 'r': res}))
     set_date_format(DEFAULT_FMT)
     return {'results': out}
 
 
 def main():
+    """progress protocol on stdout (flushed line by line, so that the parent knows where a dying worker was):
+    `S <history>` history started, `O <history> <op>` call about to run, `H <json>` results of a finished history,
+    `J <json>` normal end"""
     job = json.load(sys.stdin)
-    r = run_shared(job) if job['mode'] == 'shared' else run_fresh(job)
-    r['g_end_year'] = dmod.g_end_year
-    sys.stdout.write('J ' + json.dumps(r) + '\n')
+    real = sys.stdout
+
+    def emit(line):
+        real.write(line + '\n')
+        real.flush()
+    if job['mode'] == 'shared':
+        run_shared(job, emit)
+    else:
+        run_fresh(job, emit)
+    emit('J ' + json.dumps({'done': True, 'g_end_year': getattr(dmod, 'g_end_year', None)}))
 
 
 if __name__ == '__main__':
